@@ -98,18 +98,30 @@ def _cvc5_try(text, timeout_ms):
 
 
 def solve_text(text, timeout_s=30.0):
-    """-> dict(status, model, backend, time_s, detail)"""
+    """-> dict(status, model, backend, time_s, detail)
+
+    `text` may carry two encodings of the same obligation separated by ;;;RAW;;; :
+    the division-free normal form (first) and the raw form with native division."""
     t0 = time.time()
     tried = []
     budget = timeout_s * 1000
-    plan = [("z3-nlsat", "qfnra-nlsat", 0.35), ("z3", None, 0.35), ("cvc5", None, 0.3)] if "Int" not in text else [("z3", None, 0.6), ("cvc5", None, 0.4)]
+    raw = None
+    if "\n;;;RAW;;;\n" in text:
+        text, raw = text.split("\n;;;RAW;;;\n")
+    if "Int" not in text:
+        plan = [("z3-nlsat", "qfnra-nlsat", 0.04, text)]
+        if raw is not None:
+            plan.append(("z3-raw", None, 0.12, raw))
+        plan += [("z3-nlsat", "qfnra-nlsat", 0.34, text), ("z3", None, 0.2, text), ("cvc5", None, 0.3, text)]
+    else:
+        plan = [("z3", None, 0.6, text), ("cvc5", None, 0.4, text)]
     last = None
-    for name, tac, frac in plan:
+    for name, tac, frac, tx in plan:
         try:
             if name == "cvc5":
-                st, info = _cvc5_try(text, budget * frac)
+                st, info = _cvc5_try(tx, budget * frac)
             else:
-                st, info = _z3_try(text, budget * frac, tac)
+                st, info = _z3_try(tx, budget * frac, tac)
         except Exception as e:
             st, info = "unknown", "%s: %r" % (name, e)
         tried.append("%s:%s" % (name, st))
